@@ -92,24 +92,158 @@ theorem go_plan_ok (v : Version) (hv : v = v1 ∨ v = v2) (pt : Bytes) :
         simp at hl
   · rw [hpc]; simp
 
-/-- the run-time check against the code model -/
+theorem encPacket_layout1_flag (P : Prims) (o : Spec.Opts) (pk hh : Bytes) (mks : List Bytes) (i : Nat) (c : Bytes)
+    (f f' : Bool) : Spec.encPacket P 1 o pk hh mks i c f = Spec.encPacket P 1 o pk hh mks i c f' := by
+  simp [Spec.encPacket]
+
+theorem flatMap_layout1_flags (g : Nat → Bytes → Bool → Bytes) (hg : ∀ i c f f', g i c f = g i c f') :
+    ∀ (pl pl' : List (Bytes × Bool)) (k : Nat), pl.map (·.1) = pl'.map (·.1) →
+    (pl.zipIdx k).flatMap (fun ((c, f), i) => g i c f) = (pl'.zipIdx k).flatMap (fun ((c, f), i) => g i c f) := by
+  intro pl
+  induction pl with
+  | nil =>
+    intro pl' k h
+    cases pl' with
+    | nil => rfl
+    | cons _ _ => simp at h
+  | cons x pl ih =>
+    intro pl' k h
+    cases pl' with
+    | nil => simp at h
+    | cons y pl' =>
+      simp only [List.map_cons, List.cons.injEq] at h
+      obtain ⟨c, f⟩ := x
+      obtain ⟨c', f'⟩ := y
+      simp only at h
+      obtain ⟨rfl, h2⟩ := h
+      simp only [List.zipIdx_cons, List.flatMap_cons]
+      rw [ih pl' (k + 1) h2, hg k c f f']
+
+/-- layout 1 carries no final flag: the reference encoding depends on the chunks only -/
+theorem encodePlan_layout1_flags (P : Prims) (o : Spec.Opts) (sender : Option Bytes) (rs : List Encrypt.Recipient)
+    (eph pk : Bytes) (pl pl' : List (Bytes × Bool)) (h : pl.map (·.1) = pl'.map (·.1)) :
+    Spec.encodePlan P 1 o sender rs eph pk pl = Spec.encodePlan P 1 o sender rs eph pk pl' := by
+  unfold Spec.encodePlan
+  simp only
+  congr 1
+  exact flatMap_layout1_flags (fun i c f => Spec.encPacket P 1 o pk _ _ i c f)
+    (fun i c f f' => encPacket_layout1_flag P o pk _ _ i c f f') pl pl' 0 h
+
+/-- under the V2 chunk rules the flags are determined by the chunks: the last
+    packet, and only it, is final -/
+theorem planOK2_flags : ∀ (pl : List (Bytes × Bool)) (k : Nat), PlanOK 2 k pl →
+    ∀ (pre : List Bytes) (c : Bytes), pl.map (·.1) = pre ++ [c] → pl = pre.map (·, false) ++ [(c, true)] := by
+  intro pl
+  induction pl with
+  | nil => intro k _ pre c h; simp at h
+  | cons x rest ih =>
+    intro k hp pre c h
+    obtain ⟨c0, f0⟩ := x
+    simp only [PlanOK, show (2 : Nat) ≠ 1 by decide, if_false] at hp
+    obtain ⟨_, ⟨hf, _⟩, hrest⟩ := hp
+    cases pre with
+    | nil =>
+      simp only [List.map_cons, List.nil_append, List.cons.injEq, List.map_eq_nil_iff] at h
+      obtain ⟨rfl, hr⟩ := h
+      subst hr
+      simp [hf.2 rfl]
+    | cons p pre' =>
+      simp only [List.map_cons, List.cons_append, List.cons.injEq] at h
+      obtain ⟨rfl, hr⟩ := h
+      have hne : rest ≠ [] := by
+        intro e; subst e; simp at hr
+      have hf0 : f0 = false := by
+        cases f0 with
+        | false => rfl
+        | true => exact absurd (hf.1 rfl) hne
+      subst hf0
+      rw [ih (k + 1) hrest pre' c hr]
+      rfl
+
+/-- the V2 chunk plan of the Go sender: all packets but the last are not final -/
+theorem chunkPlan_v2_shape (bs : Nat) (pt : Bytes) :
+    ∃ (pre : List Bytes) (c : Bytes), Encrypt.chunkPlan v2 bs pt = pre.map (·, false) ++ [(c, true)] := by
+  unfold Encrypt.chunkPlan
+  simp only [msgpack_v2_ne_v1, if_false]
+  split
+  · exact ⟨[], [], rfl⟩
+  · exact ⟨_, _, rfl⟩
+
+/-- the run-time check against the code model: the decoded CHUNKS are compared
+    (layout 1 has no final flag on the wire — the decoded V1 packets carry
+    `final := false` —, under layout 2 the chunk rules determine the flags) -/
 theorem oracle_sound_model (P : Prims) (hL : P.Lawful) (hC : OpenCanonical P) (b : Bytes) (secrets : List Bytes)
     (s : String) (h : encryption P b secrets = .ok s)
-    (bs : Nat) (v : Version) (hv : v = v1 ∨ v = v2) (senderSec ephSec pk pt out : Bytes) (rs : List Encrypt.Recipient)
-    (hseal : Encrypt.sealWith P bs v (some senderSec) rs ephSec pk pt = .ok out) :
+    (bs : Nat) (v : Version) (hv : v = v1 ∨ v = v2) (sender : Option Bytes) (ephSec pk pt out : Bytes)
+    (rs : List Encrypt.Recipient)
+    (hseal : Encrypt.sealWith P bs v sender rs ephSec pk pt = .ok out) :
     ∃ (m : EncMsg) (o : EncOpened), EncMsg.parse b = .ok m ∧ m.check P secrets = .ok o ∧
-      (m.major = layoutOf v → m.eph = P.boxPub ephSec → o.senderPub = P.boxPub senderSec →
+      (m.major = layoutOf v → m.eph = P.boxPub ephSec → o.senderPub = P.boxPub (sender.getD ephSec) →
         o.payloadKey = pk → rsOf P (recipsOf secrets m.recvs) = rs →
-        planOf o.chunks m.pkts = Encrypt.chunkPlan v bs pt → b = out) := by
-  obtain ⟨m, o, layout, _, hm, hp, hc, _, _, _, _, _, hspec⟩ := oracle_sound_encryption P hL hC b secrets s h
+        o.chunks = (Encrypt.chunkPlan v bs pt).map (·.1) → b = out) := by
+  obtain ⟨m, o, layout, _, hm, hp, hc, _, _, hok, hch, _, hspec⟩ := oracle_sound_encryption P hL hC b secrets s h
   refine ⟨m, o, hp, hc, ?_⟩
   intro h1 h2 h3 h4 h5 h6
   have hlay : layout = layoutOf v := by
     rw [hm] at h1
     exact Int.ofNat.inj h1
-  have := hspec ephSec senderSec h2 h3
-  rw [h4, h5, h6, hlay] at this
-  rw [this]
-  exact (spec_eq_encryption P bs v hv (some senderSec) rs ephSec pk pt out hseal).symm
+  have := hspec ephSec (sender.getD ephSec) h2 h3
+  rw [h4, h5, hlay] at this
+  rw [this, spec_eq_encryption P bs v hv sender rs ephSec pk pt out hseal]
+  have hsnd : ∀ pl, Spec.encodePlan P (layoutOf v) {} (some (sender.getD ephSec)) rs ephSec pk pl =
+      Spec.encodePlan P (layoutOf v) {} sender rs ephSec pk pl := by
+    intro pl; cases sender <;> rfl
+  rw [hsnd]
+  rcases hv with rfl | rfl
+  · exact encodePlan_layout1_flags P {} sender rs ephSec pk _ _ (by rw [hch, h6])
+  · obtain ⟨pre, c, hshape⟩ := chunkPlan_v2_shape bs pt
+    have hl2 : layout = 2 := by rw [hlay]; simp [layoutOf, msgpack_v2_ne_v1]
+    rw [hl2] at hok
+    have : planOf o.chunks m.pkts = pre.map (·, false) ++ [(c, true)] := by
+      apply planOK2_flags _ 0 hok
+      rw [hch, h6, hshape]
+      simp [Function.comp_def]
+    rw [this, hshape]
+
+/-- decision procedure for "ALL the antecedents of `oracle_sound_model` hold of
+    the model's own output" (used by the kernel-evaluated non-vacuity examples) -/
+def modelHyps (P : Prims) (bs : Nat) (v : Version) (sender : Option Bytes) (rs : List Encrypt.Recipient)
+    (ephSec pk pt : Bytes) (secrets : List Bytes) : Bool :=
+  match Encrypt.sealWith P bs v sender rs ephSec pk pt with
+  | .error _ => false
+  | .ok out =>
+    match EncMsg.parse out with
+    | .error _ => false
+    | .ok m =>
+      match m.check P secrets with
+      | .error _ => false
+      | .ok o =>
+        decide (m.major = layoutOf v) && decide (m.eph = P.boxPub ephSec) &&
+        decide (o.senderPub = P.boxPub (sender.getD ephSec)) && decide (o.payloadKey = pk) &&
+        decide (rsOf P (recipsOf secrets m.recvs) = rs) &&
+        decide (o.chunks = (Encrypt.chunkPlan v bs pt).map (·.1))
+
+theorem modelHyps_spec (P : Prims) (bs : Nat) (v : Version) (sender : Option Bytes) (rs : List Encrypt.Recipient)
+    (ephSec pk pt : Bytes) (secrets : List Bytes) (h : modelHyps P bs v sender rs ephSec pk pt secrets = true) :
+    ∃ (out : Bytes) (s : String) (m : EncMsg) (o : EncOpened),
+      Encrypt.sealWith P bs v sender rs ephSec pk pt = .ok out ∧ encryption P out secrets = .ok s ∧
+      EncMsg.parse out = .ok m ∧ m.check P secrets = .ok o ∧
+      m.major = layoutOf v ∧ m.eph = P.boxPub ephSec ∧ o.senderPub = P.boxPub (sender.getD ephSec) ∧
+      o.payloadKey = pk ∧ rsOf P (recipsOf secrets m.recvs) = rs ∧
+      o.chunks = (Encrypt.chunkPlan v bs pt).map (·.1) := by
+  unfold modelHyps at h
+  split at h
+  · cases h
+  · rename_i out hs
+    split at h
+    · cases h
+    · rename_i m hm
+      split at h
+      · cases h
+      · rename_i o ho
+        simp only [Bool.and_eq_true, decide_eq_true_eq] at h
+        obtain ⟨⟨⟨⟨⟨a1, a2⟩, a3⟩, a4⟩, a5⟩, a6⟩ := h
+        exact ⟨out, encSummary m o, m, o, hs, (encryption_ok_iff P out secrets _).2 ⟨m, o, hm, ho, rfl⟩,
+          hm, ho, a1, a2, a3, a4, a5, a6⟩
 
 end Saltpack.Proofs.SDW
